@@ -53,6 +53,7 @@ func checkC11(c *Ctx) {
 	ruleEmphKX(c)
 	ruleEmphS(c)
 	ruleEmphFlank(c)
+	ruleEmphEdge(c)
 }
 
 type emphState struct {
